@@ -122,7 +122,7 @@ fn main() {
         std::process::exit(0);
     }
     let threads = ncpu();
-    let progs = args.pick(400usize, 20_000usize);
+    let progs = args.pick(800usize, 8_000usize);
     let streams_per = args.pick(5usize, 10usize);
     let per_thread = progs / threads + 1;
     let thorough = args.thorough();
